@@ -132,9 +132,9 @@ func sameGhost(a, b *ghost) bool {
 // and never alters the response or a panic.
 func HarnessC20Log(st any) {
 	s := st.(*c20State)
-	behaviour := sym.Choose("behaviour", 6)
+	behaviour := sym.Choose("behaviour", 7)
 	code := 200
-	if behaviour == 0 {
+	if behaviour == 0 || behaviour == 6 {
 		code = sym.Int("code", 100, 999)
 	}
 	handlerDone := 0
@@ -152,12 +152,23 @@ func HarnessC20Log(st any) {
 			// nothing written
 		case 5:
 			panic(injectedPanic{7})
+		case 6:
+			c.SetHeader("Location", "/preferred") // any status together with a Location header
+			c.Writer().WriteHeader(code)
 		}
 		s.sink.seq++
 		handlerDone = s.sink.seq
 	}
 	req := c20Request(s.kind)
+	// a quiet request to the route first: the context the request under test reuses has served a route
+	// (with its own client IP resolver when resolver=3)
+	quiet := behaviour
+	behaviour = 4
+	serveCapture(s.logged, c20Request(hkRoute))
+	serveCapture(s.bare, c20Request(hkRoute))
+	behaviour = quiet
 	s.sink.recs, s.sink.seq = nil, 0
+	handlerDone = 0
 	g1, p1 := serveCapture(s.logged, req)
 	recs := s.sink.recs
 	doneAt := handlerDone
